@@ -97,6 +97,9 @@ def run(tier='quick'):
     c01._filter_agreement(chk, G2, maps)
     _row_scope(prog, cg, eff, chk, S3)
     _facade(prog, cg, chk, F1)
+    G4 = chk.rule('G4', 'the util helpers that lift a conversion over std::optional between nullable columns and optional getter / setter values yield a value exactly when given one', floor=4)
+    from .. import rowrules as _rr
+    _rr.optional_lifts(prog, chk, G4)
     return chk.finish('value-flow interpretation of the 60 track_impl virtuals of both implementations per '
                       'schema range (%d representative versions): per-field read / write location sets with '
                       'blob-member granularity, converter argument roles, written constants; row-scope and '
